@@ -50,6 +50,7 @@ pub fn all() -> Vec<Regression> {
         Regression { name: "D31-dop853-nonfinite-after-error-test", property: "C04", what: "DOP853, first_step = 2*span: a single NaN answer at the new-point derivative or a dense-output stage of the last step must not give Success with NaN samples", f: d31 },
         Regression { name: "D32-dense-without-accepted-step", property: "C06", what: "Radau/BDF, first_step = span/2, max_steps = 5, dense output: the run ends before its first accepted step and sol(x0) must still return y0", f: d32 },
         Regression { name: "D33-dopri5-naccpt-at-probably-stiff", property: "C18", what: "DOPRI5 on y'=-2000(y-cos t) ends with ProbablyStiff: naccpt must equal the number of reported intervals", f: d33 },
+        Regression { name: "D34-rk23-xout-interpolant", property: "C07", what: "RK23 built with dense_output(false): the interpolant obtained through XOut must reproduce the step's end state (was all zeros)", f: d34 },
         Regression { name: "D16-rk4-dense-order", property: "C07", what: "RK4 cubic Hermite dense output must be O(h^4) inside a step", f: d16 },
     ]
 }
@@ -593,6 +594,27 @@ fn d28() -> Result<(), String> {
     for w in s.t.windows(2) {
         if !(w[1] > w[0]) {
             return Err(format!("t not strictly increasing: {:e} then {:e}", w[0], w[1]));
+        }
+    }
+    Ok(())
+}
+
+fn d34() -> Result<(), String> {
+    let p = base(Base::Harmonic(1.3));
+    let mut c = Cfg::new(Method::RK23, 0.0, 1.0, &p.y0).tol(1e-6, 1e-8);
+    c.low_dense = Some(false);
+    let script: Vec<(usize, crate::env::Ans)> = (0..400).map(|k| (k, crate::env::Ans::XOut(-1.0))).collect();
+    let r = crate::run::run_lowlevel(&p, &c, &script, &[], None, false);
+    if r.ok().is_none() || r.recs.len() < 3 {
+        return Err(format!("run ended with {}", r.outcome_name()));
+    }
+    for (j, q) in r.recs.iter().enumerate().skip(1) {
+        if !q.has_interp {
+            return Err(format!("step {}: no interpolant although XOut was returned", j));
+        }
+        let d = q.at_x.iter().zip(&q.y).fold(0.0f64, |a, (u, v)| a.max((u - v).abs()));
+        if d > 1e-12 {
+            return Err(format!("step {}: interpolant(x) = {:?} but the state is {:?}", j, q.at_x, q.y));
         }
     }
     Ok(())
